@@ -1,6 +1,6 @@
 (* Replays the ops of an implementation trace on the extracted model and prints
    the same observation groups in the same syntax. Reads the trace on stdin,
-   writes the model trace on stdout. Only H/P/A/F/O/E lines are read. *)
+   writes the model trace on stdout. Only H/P/A/F/Q/O/E lines are read. *)
 module BZ = Z
 open Model
 
@@ -114,6 +114,7 @@ let parse_op (t : toks) : op option =
   | k -> failwith ("unknown op " ^ k)
 
 (* ---- printing ---- *)
+(* (see below: query answers, property C17) *)
 let b2i b = if b then "1" else "0"
 let ctx_s ((tx, idx) : ctxId) = sz tx ^ " " ^ sz idx
 let rid_s (((((c, b), h), i)) : reqId) = ctx_s c ^ " " ^ sz b ^ " " ^ sz h ^ " " ^ sz i
@@ -187,8 +188,75 @@ let lines (atoms : z list) (s : state) (oldlog : int) : (string, string list) Ha
   Hashtbl.replace g "slash" sl;
   g
 
+(* ---- property C17: the `query` group ----
+   `Q <step> <kind> <args>` lines (syntax: harness/queries.go) precede the `O <step> query`
+   line; for each of them the gRPC and the legacy query function of Model/Queries.v is
+   evaluated on the current state and printed as `g|l <kind> <args> = <answer>`. *)
+let bind_fields (b : binding) =
+  String.concat " " [sz b.b_deposit; b2i b.b_avail; sz b.b_dtime; sz b.b_owner; sz b.b_qos;
+                     sz b.b_raw.raw_price ^ promos_s b.b_raw.raw_time b.b_raw.raw_vol]
+
+let ctx_fields (rc : ctx) =
+  String.concat " " [sz rc.c_svc; list_s rc.c_provs; sz rc.c_cons; sz rc.c_input; sz rc.c_cap;
+    sz rc.c_timeout; b2i rc.c_super; b2i rc.c_rep; sz rc.c_freq; sz rc.c_total; sz rc.c_counter; sz rc.c_breq;
+    sz rc.c_bresp; sz rc.c_bthr; b2i rc.c_bdone; state_i rc.c_state; sz rc.c_thr; sz rc.c_mod]
+
+let req_fields (f : fullReq) =
+  if f = zero_request then "zero" else
+  String.concat " " [rid_s f.fr_id; sz f.fr_svc; sz f.fr_prov; sz f.fr_cons; sz f.fr_input; sz f.fr_fee;
+    b2i f.fr_super; sz f.fr_height; sz f.fr_exp; ctx_s f.fr_ctx; sz f.fr_batch]
+
+let resp_fields ((r, x) : reqId * resp) =
+  String.concat " " [sz x.rs_prov; sz x.rs_cons; sz x.rs_code; sz x.rs_out; ctx_s (rid_ctx r); sz (rid_batch r)]
+
+let ans_s (f : 'a -> string) (a : 'a ans) =
+  match a with AOk x -> "ok " ^ f x | ANotFound -> "nf" | AErr -> "err"
+
+let items_s sorted items =
+  let items = if sorted then List.sort compare items else items in
+  String.concat " | " (string_of_int (List.length items) :: items)
+
+let query_lines (cfg : params) (s : state) (addr_ok : z -> bool) (kind : string) (t : toks) : string * string =
+  let binds_s l = items_s true (List.map (fun ((svc, prov), b) -> sz svc ^ " " ^ sz prov ^ " " ^ bind_fields b) l) in
+  let reqs_s l = items_s false (List.map req_fields l) in
+  match kind with
+  | "def" -> let svc = nz t in
+      ans_s sz (q_definition s svc), ans_s sz (lq_definition s svc)
+  | "bind" -> let svc = nz t in let p = nz t in
+      ans_s bind_fields (q_binding s svc p), ans_s bind_fields (lq_binding (addr_ok p) s svc p)
+  | "binds" -> let svc = nz t in let o = nz t in
+      ans_s binds_s (q_bindings s svc o), ans_s binds_s (lq_bindings (o = Z0 || addr_ok o) s svc o)
+  | "wd" -> let o = nz t in
+      ans_s sz (q_withdraw_address s o), ans_s sz (lq_withdraw_address (addr_ok o) s o)
+  | "ctx" -> let tx = nz t in let idx = nz t in
+      ans_s ctx_fields (q_request_context s (tx, idx)), ans_s ctx_fields (lq_request_context s (tx, idx))
+  | "req" -> let tx = nz t in let idx = nz t in let b = nz t in let h = nz t in let i = nz t in
+      let r = ((((tx, idx), b), h), i) in
+      ans_s req_fields (q_request s r), ans_s req_fields (lq_request s r)
+  | "reqs" -> let svc = nz t in let p = nz t in
+      ans_s reqs_s (q_requests s svc p), ans_s reqs_s (lq_requests (addr_ok p) s svc p)
+  | "reqsctx" -> let tx = nz t in let idx = nz t in let b = nz t in
+      ans_s reqs_s (q_requests_by_ctx s (tx, idx) b), ans_s reqs_s (lq_requests_by_ctx s (tx, idx) b)
+  | "resp" -> let tx = nz t in let idx = nz t in let b = nz t in let h = nz t in let i = nz t in
+      let r = ((((tx, idx), b), h), i) in
+      ans_s (fun x -> resp_fields (r, x)) (q_response s r), ans_s (fun x -> resp_fields (r, x)) (lq_response s r)
+  | "resps" -> let tx = nz t in let idx = nz t in let b = nz t in
+      let f l = items_s false (List.map resp_fields l) in
+      ans_s f (q_responses s (tx, idx) b), ans_s f (lq_responses s (tx, idx) b)
+  | "fees" -> let p = nz t in
+      let f l = String.concat " " (string_of_int (List.length l) :: List.map sz l) in
+      ans_s f (q_earned_fees s p), ans_s f (lq_earned_fees (addr_ok p) s p)
+  | "schema" -> let n = nz t in ans_s sz (q_schema n), ans_s sz (lq_schema n)
+  | "params" ->
+      let f (p : params) = String.concat " " [sz p.p_max_timeout; sz p.p_multiple; sz p.p_min_deposit; sz p.p_tax;
+                                              sz p.p_slash; sz p.p_arb; sz p.p_compl] in
+      ans_s f (q_params cfg), ans_s f (lq_params cfg)
+  | k -> failwith ("unknown query kind " ^ k)
+
 let () =
   let cfg = ref None and st = ref None and atoms = ref [] and funding = ref [] in
+  let addr_len : (string, int) Hashtbl.t = Hashtbl.create 32 in
+  let pending_q : string list ref = ref [] in
   let h0 = ref Z0 and t0 = ref Z0 in
   let prev : (string, string) Hashtbl.t = Hashtbl.create 16 in
   let observe step oldlog =
@@ -219,14 +287,20 @@ let () =
         match next t with
         | "H" ->
             print_string line; print_char '\n';
-            cfg := None; st := None; atoms := []; funding := []; Hashtbl.reset prev
+            cfg := None; st := None; atoms := []; funding := []; Hashtbl.reset prev;
+            Hashtbl.reset addr_len; pending_q := []
         | "P" ->
             let mt = nz t in let mu = nz t in let md = nz t in let tax = nz t in let sl = nz t in
             let arb = nz t in let co = nz t in let ms = nz t in let cm = nz t in
             h0 := nz t; t0 := nz t;
             cfg := Some { p_max_timeout = mt; p_multiple = mu; p_min_deposit = md; p_tax = tax; p_slash = sl;
                           p_arb = arb; p_compl = co; p_modsvc = ms; p_cbmod = cm }
-        | "A" -> atoms := nz t :: !atoms
+        | "A" ->
+            let a = next t in
+            let hex = (match t.l with h :: _ -> h | [] -> "") in
+            Hashtbl.replace addr_len a (String.length hex / 2);
+            atoms := zs a :: !atoms
+        | "Q" -> start (); pending_q := line :: !pending_q
         | "F" -> let a = nz t in let amt = nz t in funding := (a, amt) :: !funding
         | "O" ->
             start ();
@@ -238,9 +312,22 @@ let () =
                  st := Some s';
                  Printf.printf "R %d %s\n" step_no (match out with ROk -> "ok" | RErr -> "err" | RPanic -> "panic");
                  observe step_no oldlog
-             | None, _, Some s ->
+             | None, Some c, Some s ->
                  Printf.printf "R %d ok\n" step_no;
-                 observe step_no (List.length s.log)
+                 observe step_no (List.length s.log);
+                 let qs = List.rev !pending_q in
+                 pending_q := [];
+                 if qs <> [] then begin
+                   let addr_ok a = (try Hashtbl.find addr_len (sz a) = 20 with Not_found -> false) in
+                   Printf.printf "G %d query %d\n" step_no (2 * List.length qs);
+                   List.iter (fun ql ->
+                     match String.split_on_char ' ' ql with
+                     | _ :: _ :: kind :: args ->
+                         let head = String.concat " " (kind :: args) in
+                         let (g, l) = query_lines c s addr_ok kind { l = args } in
+                         Printf.printf "L g %s = %s\nL l %s = %s\n" head g head l
+                     | _ -> failwith "bad Q line") qs
+                 end
              | _ -> failwith "op before header")
         | "E" -> start (); print_string line; print_char '\n'
         | _ -> ()
